@@ -164,8 +164,15 @@ Definition Pb (c : case) : bool :=
           (open findings K_opt_short_collision, K_ctor_method_name_collision, K_rest_unexported_iface):
           excused only while one of those reproduces, counted
    9 1    outside the generator guards, property holds: not compared further, counted *)
+(* which data entries (types of the run, in order) are inside their generator's guard: bit i = entry i *)
+Fixpoint guard_mask (ds : list gdata) (bit : N) : N :=
+  match ds with
+  | [] => 0%N
+  | d :: r => ((if data_in_guard d then bit else 0) + guard_mask r (bit * 2))%N
+  end.
+
 Definition verdict (c : case) : N * N :=
-  if negb (case_in_guard c) then (if Pb c then (9%N, 1%N) else (8%N, 1%N))
+  if negb (case_in_guard c) then (if Pb c then (9%N, 1%N) else (8%N, (1 + 10 * guard_mask (c_data c) 1)%N))
   else if negb (Pb c) then
     (if negb (model_wf c) && c_exit0 c && negb (c_abnormal c) && negb (c_build c) then (8%N, 2%N)
      else (2%N, corr_component c))
@@ -178,7 +185,7 @@ Fixpoint mismatches_from (i : N) (cs : list case) : list (N * N) :=
       let v := verdict c in
       match fst v with
       | 0%N => mismatches_from (N.succ i) r
-      | k => (i, (k * 10 + snd v)%N) :: mismatches_from (N.succ i) r
+      | k => (i, (k + 10 * snd v)%N) :: mismatches_from (N.succ i) r
       end
   end.
 Definition mismatches := mismatches_from 0%N.
